@@ -6,6 +6,7 @@ package main
 
 import (
 	"fmt"
+	"os"
 	"go/constant"
 	"go/token"
 	"go/types"
@@ -35,7 +36,8 @@ type Exec struct {
 	// inline policy: functions that must not be inlined (treated as unknown)
 	NoInline map[*ssa.Function]bool
 	// PanicIsEvent: record panics as events and stop the path
-	Stats struct{ Instrs, Calls, Forks, Widen int }
+	WatchEdges map[edge]bool
+	Stats      struct{ Instrs, Calls, Forks, Widen int }
 }
 
 type Frame struct {
@@ -43,9 +45,45 @@ type Frame struct {
 	regs    map[ssa.Value]Val
 	visits  map[*ssa.BasicBlock]int
 	widened map[*ssa.BasicBlock]bool
+	phiHist map[*ssa.Phi]Val // value at the previous visit of the loop head
+	kept    map[*ssa.Phi]keptInv // invariants kept at widening (checked inductively)
+	wctx    map[*ssa.BasicBlock]*widenCtx
 	defers  []deferred
 	depth   int
 	stack   []*ssa.Function
+}
+
+type widenCtx struct{ failed map[*ssa.Phi]bool }
+
+// keptInv: a loop invariant candidate frozen at widening time.
+type keptInv struct {
+	isBool bool
+	b      bool
+	lo, hi int64
+}
+
+func (st *State) freeze(v Val) keptInv {
+	switch x := v.(type) {
+	case *BoolV:
+		b, _ := st.boolOf(x)
+		return keptInv{isBool: true, b: b}
+	case *IntV:
+		l, h := st.Range(x)
+		return keptInv{lo: l, hi: h}
+	}
+	return keptInv{}
+}
+
+func (st *State) subsumedBy(v Val, k keptInv) bool {
+	switch x := v.(type) {
+	case *BoolV:
+		b, known := st.boolOf(x)
+		return k.isBool && known && b == k.b
+	case *IntV:
+		l, h := st.Range(x)
+		return !k.isBool && l >= k.lo && h <= k.hi
+	}
+	return false
 }
 
 type deferred struct {
@@ -80,7 +118,20 @@ func (ex *Exec) NewState() *State {
 }
 
 func (fr *Frame) clone() *Frame {
-	n := &Frame{fn: fr.fn, regs: make(map[ssa.Value]Val, len(fr.regs)), visits: make(map[*ssa.BasicBlock]int, len(fr.visits)), widened: make(map[*ssa.BasicBlock]bool, len(fr.widened)), depth: fr.depth, stack: fr.stack}
+	n := &Frame{fn: fr.fn, regs: make(map[ssa.Value]Val, len(fr.regs)), visits: make(map[*ssa.BasicBlock]int, len(fr.visits)), widened: make(map[*ssa.BasicBlock]bool, len(fr.widened)), depth: fr.depth, stack: fr.stack,
+		phiHist: make(map[*ssa.Phi]Val, len(fr.phiHist)), kept: make(map[*ssa.Phi]keptInv, len(fr.kept))}
+	for k, v := range fr.phiHist {
+		n.phiHist[k] = v
+	}
+	for k, v := range fr.kept {
+		n.kept[k] = v
+	}
+	if fr.wctx != nil {
+		n.wctx = make(map[*ssa.BasicBlock]*widenCtx, len(fr.wctx))
+		for k, v := range fr.wctx {
+			n.wctx[k] = v
+		}
+	}
 	for k, v := range fr.regs {
 		n.regs[k] = v
 	}
@@ -109,7 +160,7 @@ func (ex *Exec) loopHeads(fn *ssa.Function) map[*ssa.BasicBlock]*loopInfo {
 // Call runs fn on args in state st and returns all outcomes (one per trace partition).
 func (ex *Exec) Call(st *State, fn *ssa.Function, args []Val, parent *Frame) []Outcome {
 	ex.Stats.Calls++
-	fr := &Frame{fn: fn, regs: map[ssa.Value]Val{}, visits: map[*ssa.BasicBlock]int{}, widened: map[*ssa.BasicBlock]bool{}}
+	fr := &Frame{fn: fn, regs: map[ssa.Value]Val{}, visits: map[*ssa.BasicBlock]int{}, widened: map[*ssa.BasicBlock]bool{}, phiHist: map[*ssa.Phi]Val{}, kept: map[*ssa.Phi]keptInv{}}
 	if parent != nil {
 		fr.depth = parent.depth + 1
 		fr.stack = append(append([]*ssa.Function{}, parent.stack...), fn)
@@ -133,28 +184,13 @@ func (ex *Exec) enter(fr *Frame, st *State, b *ssa.BasicBlock, prev *ssa.BasicBl
 	if ex.Budget {
 		return nil
 	}
-	if li := ex.loopHeads(fr.fn)[b]; li != nil && prev != nil {
-		fr.visits[b]++
-		if fr.visits[b] > ex.Unroll {
-			if fr.widened[b] {
-				return nil // subsumed by the widened iteration
-			}
-			fr.widened[b] = true
-			ex.Stats.Widen++
-			// widen: havoc heap and the loop header's phis
-			ex.havocAll(st, "loop widening in "+fr.fn.Name())
-			for _, in := range b.Instrs {
-				phi, ok := in.(*ssa.Phi)
-				if !ok {
-					break
-				}
-				fr.regs[phi] = ex.topOf(st, phi.Type(), "widen:"+phi.Name())
-			}
-			// all registers defined inside the loop body are stale but will be recomputed before use (SSA dominance)
-			return ex.execFrom(fr, st, b, firstNonPhi(b), prev)
-		}
+	if prev != nil && ex.WatchEdges != nil && ex.WatchEdges[edge{prev, b}] {
+		st.Events = append(st.Events, Event{Kind: "edge", Msg: fmt.Sprintf("%s:%d->%d", fr.fn.Name(), prev.Index, b.Index)})
 	}
-	// phis (simultaneous)
+	isHead := ex.loopHeads(fr.fn)[b] != nil
+	// incoming phi values (simultaneous assignment)
+	var phis []*ssa.Phi
+	var vals []Val
 	if prev != nil {
 		idx := -1
 		for i, p := range b.Preds {
@@ -162,8 +198,6 @@ func (ex *Exec) enter(fr *Frame, st *State, b *ssa.BasicBlock, prev *ssa.BasicBl
 				idx = i
 			}
 		}
-		var vals []Val
-		var phis []*ssa.Phi
 		for _, in := range b.Instrs {
 			phi, ok := in.(*ssa.Phi)
 			if !ok {
@@ -172,9 +206,62 @@ func (ex *Exec) enter(fr *Frame, st *State, b *ssa.BasicBlock, prev *ssa.BasicBl
 			phis = append(phis, phi)
 			vals = append(vals, ex.eval(fr, st, phi.Edges[idx]))
 		}
-		for i, phi := range phis {
-			fr.regs[phi] = vals[i]
+	}
+	if isHead && prev != nil {
+		fr.visits[b]++
+		if fr.widened[b] {
+			// second arrival at a widened head: the kept invariants must be inductive, then the path is subsumed
+			for i, phi := range phis {
+				if kv, ok := fr.kept[phi]; ok && !st.subsumedBy(vals[i], kv) {
+					if wc := fr.wctx[b]; wc != nil {
+						if os.Getenv("ABSDEBUG") != "" {
+							fmt.Fprintf(os.Stderr, "widen fail %s: incoming %s kept %+v\n", phi.Name(), valString(vals[i]), kv)
+						}
+						wc.failed[phi] = true
+					} else {
+						ex.unsupported("widening invariant not inductive at " + fr.fn.Name() + ":" + phi.Name())
+					}
+				}
+			}
+			return nil
 		}
+		if fr.visits[b] > ex.Unroll {
+			ex.Stats.Widen++
+			forget := map[*ssa.Phi]bool{}
+			for {
+				st2, fr2 := st.Clone(), fr.clone()
+				wc := &widenCtx{failed: map[*ssa.Phi]bool{}}
+				if fr2.wctx == nil {
+					fr2.wctx = map[*ssa.BasicBlock]*widenCtx{}
+				}
+				fr2.wctx[b] = wc
+				fr2.widened[b] = true
+				ex.havocAll(st2, "loop widening in "+fr.fn.Name())
+				for i, phi := range phis {
+					if hv, ok := fr.phiHist[phi]; ok && !forget[phi] {
+						if kv, ok := st2.widenVal(hv, vals[i]); ok {
+							fr2.regs[phi] = kv
+							fr2.kept[phi] = st2.freeze(kv)
+							continue
+						}
+					}
+					fr2.regs[phi] = ex.topOf(st2, phi.Type(), "widen:"+phi.Name())
+				}
+				outs := ex.execFrom(fr2, st2, b, firstNonPhi(b), prev)
+				if len(wc.failed) == 0 {
+					return outs
+				}
+				for phi := range wc.failed {
+					forget[phi] = true
+				}
+			}
+		}
+		for i, phi := range phis {
+			fr.phiHist[phi] = vals[i]
+		}
+	}
+	for i, phi := range phis {
+		fr.regs[phi] = vals[i]
 	}
 	return ex.execFrom(fr, st, b, firstNonPhi(b), prev)
 }
@@ -258,6 +345,9 @@ func (ex *Exec) globalObj(st *State, g *ssa.Global) int {
 	if _, ok := st.heap[id]; !ok {
 		if cv := ex.constGlobal(g); cv != nil {
 			st.heap[id] = cv
+			ex.constObj[id] = true
+		} else if ex.sentinelErr(g) {
+			st.heap[id] = &IfaceV{Unk: true, NonNil: true}
 			ex.constObj[id] = true
 		} else {
 			st.heap[id] = ex.topOf(st, g.Type().(*types.Pointer).Elem(), "g:"+g.Name())
